@@ -359,6 +359,16 @@ def check_init(ctx):
                 continue
             argn = {a_.arg for a_ in g.args.args[1:]} | ({g.args.vararg.arg} if g.args.vararg else set()) | ({g.args.kwarg.arg} if g.args.kwarg else set())
             sd_ = {n_: v_ for n_, v_ in util.single_defs(g).items() if v_ is not None}
+            # names bound by a loop over something that reads an argument stand for the argument (`for p, v in param_dict.items()`)
+            grew = True
+            while grew:
+                grew = False
+                for l_ in ast.walk(g):
+                    if isinstance(l_, (ast.For, ast.comprehension)) and any(isinstance(x_, ast.Name) and x_.id in argn for x_ in ast.walk(l_.iter)):
+                        for x_ in ast.walk(l_.target):
+                            if isinstance(x_, ast.Name) and x_.id not in argn:
+                                argn.add(x_.id)
+                                grew = True
             vals = []
             for n_ in ast.walk(g):
                 if isinstance(n_, (ast.Assign, ast.AugAssign)):
